@@ -207,7 +207,7 @@ Definition read_bytes_go (s : rstate) (sz : N) : list N * rstate * N * N :=
   else let '(l, s') := read_bytes (N.to_nat sz) s in
        (if rerr s' then [] else l, s', sz, sz).
 
-(* what the run cost: requested allocation sizes of ReadBytes (most recent first), number of Read(8)
+(* what the run cost: requested allocation sizes of ReadBytes (in the order of the requests), number of Read(8)
    calls made by the two 0xFF-run loops, number of ReadBytes loop iterations *)
 Record xcost := mkCost { c_allocs : list N; c_ffreads : N; c_pliters : N }.
 
